@@ -128,7 +128,7 @@ package main
 
 // The flag variables are initialised at package initialisation (flag.Bool / flag.String return non-nil).
 //@ func main() ()
-//@ assigns prefixesFrozen, fs, foff, handledBy, synced, any ast.CallExpr.Fun, any derive.printer.hasContent, any derive.printer.indent, any derive.printer.w, any derive.printer.imports, any derive.typesMap.generated, any derive.typesMap.funcToTyps, any derive.typesMap.typss
+//@ assigns prefixesFrozen, fs, foff, handledBy, synced, any ast.CallExpr.Fun, any derive.finder.undefined, any derive.finder.derived, any derive.finder.funcNames, any derive.printer.hasContent, any derive.printer.indent, any derive.printer.w, any derive.printer.imports, any derive.typesMap.generated, any derive.typesMap.funcToTyps, any derive.typesMap.typss
 //@ requires autoname != nil && dedup != nil && prefix != nil && pluginprefix != nil
 //@ requires [fresh-process] !prefixesFrozen
 //@ ensures [user-files-intact] (!old(*autoname) && !old(*dedup)) ==> forall q string :: !isDerivedFile(q) ==> ((q in fs) <==> (q in old(fs))) && fs[q] == old(fs)[q]
